@@ -139,6 +139,10 @@ type Run struct {
 	RelTotal   int
 	RelBound   int
 	RelRan     bool
+	// C07/C03 bounded negotiation stand-in
+	NegFailing []string
+	NegTotal   int
+	NegRan     bool
 	SchemaCount int
 }
 
@@ -261,6 +265,14 @@ func verifyRun(opts *RunOpts) (*Run, error) {
 			run.ExtraNotes = append(run.ExtraNotes, "bounded relations stand-in did not run: "+err.Error())
 		} else {
 			run.RelFailing, run.RelTotal, run.RelBound, run.RelRan = f, total, k, true
+		}
+	}
+	if opts.Prop == "C07" || opts.Prop == "C03" {
+		f, total, err := runBoundedNegotiation(opts)
+		if err != nil {
+			run.ExtraNotes = append(run.ExtraNotes, "bounded negotiation stand-in did not run: "+err.Error())
+		} else {
+			run.NegFailing, run.NegTotal, run.NegRan = f, total, true
 		}
 	}
 	if opts.Prop == "C05" {
